@@ -143,6 +143,7 @@ def evaluate(contract_fn, args, result, olds, whitebox=()):
         names = contract_fn.__code__.co_varnames[:contract_fn.__code__.co_argcount]
         ns = dict(g)          # one namespace, so that lambdas inside clauses see the parameters
         ns.update(zip(names, args))
+        ns['_dsl_eq'] = _dsl_eq
         for code in stmts:
             _touched[0] = False
             try:
@@ -171,6 +172,16 @@ def _clauses(fn):
     import ast, inspect, textwrap
 
     class Lazy(ast.NodeTransformer):
+        def visit_Compare(self, node):
+            self.generic_visit(node)
+            # marker objects (Push, ...) compare by identity in penman; in a contract  a == b  means "the same
+            # markers in the same order", as it does for the verifier
+            if len(node.ops) == 1 and isinstance(node.ops[0], (ast.Eq, ast.NotEq)):
+                call = ast.Call(func=ast.Name(id='_dsl_eq', ctx=ast.Load()), args=[node.left, node.comparators[0]],
+                                keywords=[])
+                return call if isinstance(node.ops[0], ast.Eq) else ast.UnaryOp(op=ast.Not(), operand=call)
+            return node
+
         def visit_Call(self, node):
             self.generic_visit(node)
             if isinstance(node.func, ast.Name) and node.func.id == 'implies' and len(node.args) == 2:
@@ -472,3 +483,31 @@ def forall_keys(d, f):
 
 def dict_wf(d):
     return True
+
+
+def _canon(x):
+    if isinstance(x, _Any):
+        return x
+    try:
+        from penman.epigraph import Epidatum
+    except Exception:
+        Epidatum = ()
+    if Epidatum and isinstance(x, Epidatum) and type(x).__eq__ is object.__eq__:
+        return ('$marker', type(x).__name__, repr(x))
+    if isinstance(x, list):
+        return [_canon(y) for y in x]
+    if isinstance(x, tuple) and not hasattr(x, '_fields'):
+        return tuple(_canon(y) for y in x)
+    if isinstance(x, dict):
+        return {k: _canon(v) for k, v in x.items()}
+    return x
+
+
+def _dsl_eq(a, b):
+    r = (a == b)
+    if isinstance(a, _Any) or isinstance(b, _Any) or r is True:
+        return r
+    try:
+        return _canon(a) == _canon(b)
+    except Exception:
+        return r
